@@ -544,6 +544,8 @@ class SymStr:
         if c in ("core::iter::traits::collect::IntoIterator::into_iter", "core::iter::traits::iterator::Iterator::by_ref") or c.endswith("IntoIterator>::into_iter"):
             if a0 is not None and a0[0] == "abs" and a0[1] == "siter":
                 return [(OK, args[0] if c.endswith("by_ref") else a0, st)]
+            if a0 is not None and a0[0] == "abs" and a0[1] == "sset":
+                return [(OK, a0, st)]      # iterating a set: resolved when it is collected
         if (c == "core::iter::traits::iterator::Iterator::collect" or c.endswith("::collect")) and isinstance(n, dict) and n.get("ty") == "alloc::string::String":
             if a0 is not None and a0[0] == "abs" and a0[1] == "siter":
                 ps = [pieces_of(I.deref_val(st, x)) for x in a0[2][a0[3]:]]
@@ -554,6 +556,19 @@ class SymStr:
                     return [(OK, mk(out), st)]
                 return [(OK, unk("collect-string"), st)]
         if c == "core::iter::traits::iterator::Iterator::collect" or c.endswith("::collect"):
+            tyn = (n.get("ty") or "") if isinstance(n, dict) else ""
+            if a0 is not None and a0[0] == "abs" and a0[1] == "siter" and ("BTreeSet<" in tyn or "HashSet<" in tyn):
+                # a set: order and multiplicity of the source are lost
+                items = [I.deep_deref(st, I.deref_val(st, x), 0) for x in a0[2][a0[3]:]]
+                uniq = sorted(set(items), key=repr)
+                return [(OK, ("abs", "sset", tuple(uniq), "btree" if "BTreeSet<" in tyn else "hash"), st)]
+            if a0 is not None and a0[0] == "abs" and a0[1] == "sset":
+                ps = [pieces_of(x) if x[0] in ("sstr", "str") else None for x in a0[2]]
+                if a0[3] == "btree" and all(p is not None and is_concrete(p) for p in ps):
+                    return [(OK, ("abs", "svec", tuple(sorted(a0[2], key=lambda x: concrete(pieces_of(x)).encode()))), st)]
+                if len(a0[2]) <= 1:
+                    return [(OK, ("abs", "svec", tuple(a0[2])), st)]
+                return [(OK, unk("iteration order of a set of symbolic texts"), st)]
             if a0 is not None and a0[0] == "abs" and a0[1] == "siter":
                 return [(OK, ("abs", "svec", a0[2][a0[3]:]), st)]
         if c == "alloc::slice::<impl [T]>::join":
